@@ -158,6 +158,20 @@ theorem C15_readonly_no_commit (root : Path) (cfg : Cfg) (g : G) (msg : String) 
 def Inv (root : Path) (g : G) : Prop :=
   NoMixed g ∧ ∀ p, isXvcPathAt root p = true → g.headTree.find? p = g.index.find? p
 
+/-- xvc's own writes (confined to xvc paths) cannot create a path with a staged and an unstaged change -/
+theorem noMixed_after_writes (root : Path) (g : G) (ch : Change) (hinv : Inv root g)
+    (hc : Confined root ch) : NoMixed { g with wt := g.wt.apply ch } := by
+  intro p hp
+  obtain ⟨hm, hx⟩ := hinv
+  have hp' : g.headTree.find? p ≠ g.index.find? p := hp
+  have hux : isXvcPathAt root p = false := by
+    cases h : isXvcPathAt root p
+    · rfl
+    · exact absurd (hx p h) hp'
+  show (g.wt.apply ch).find? p = g.index.find? p
+  rw [find?_apply_user root g.wt ch hc p hux]
+  exact hm p hp'
+
 theorem phase_step (root : Path) (cfg : Cfg) (g : G) (msg : String) (tb : Option String) (ch : Change) (hookOk : Bool)
     (hinv : cfg.useGit = true → cfg.autoCommit = true → Inv root g) (hc : Confined root ch) :
     let o := handleGitAutomation (isXvcPathAt root) cfg { g with wt := g.wt.apply ch } msg tb hookOk
@@ -188,7 +202,7 @@ theorem phase_step (root : Path) (cfg : Cfg) (g : G) (msg : String) (tb : Option
     show handleGitAutomation (isXvcPathAt root) cfg g1 msg tb hookOk = _
     simp [handleGitAutomation, hu, ha]
   rw [ho] at hok ⊢
-  exact ⟨hac.2.1, fun p hp => hac.2.2 p ((hinv hu ha).2 p hp)⟩
+  exact ⟨hac.2.1, fun p hp => hac.2.2.1 p ((hinv hu ha).2 p hp)⟩
 
 theorem runPhases_kept (root : Path) (cfg : Cfg) (msg : String) (tb : Option String) (g : G)
     (phases : List (Change × Bool))
@@ -410,6 +424,124 @@ theorem C15_from_ref (g : G) (r : String) (hm : NoMixed g)
       (gitCheckoutRef g r).g.wt.find? p = g.wt.find? p :=
   checkoutRef_facts g r hm hfree
 
+/-! ## the ref clause in full: refs are only ever extended, an existing `--to-branch` target is refused -/
+
+/-- `a` is `b` or an ancestor of `b` along `parent` links (`git merge-base --is-ancestor a b`);
+    `fuel` bounds the walk -/
+def isAncestor (cs : List Commit) : Nat → Nat → Nat → Bool
+  | 0, _, _ => false
+  | fuel + 1, a, b =>
+    a == b || (match cs[b]? with
+      | some o => (match o.parent with
+        | some p => isAncestor cs fuel a p
+        | none => false)
+      | none => false)
+
+/-- **C15, refs (one call).**  For EVERY ref map, every ref `r` that existed (pointing at `c`) —
+    the current branch and a branch named by `--to-branch` included —, every layout, setting and
+    git outcome: after `handle_git_automation` the ref still points at `c`, or `r` was the current
+    branch and now points at the ONE new commit, whose parent is `c` (so `c` stays an ancestor of
+    the new tip and reachable), and whose tree has, on every path xvc does not own, what the tree
+    of `c` has.  No ref is deleted, reset or moved to another history. -/
+theorem C15_refs_only_extended (root : Path) (cfg : Cfg) (g : G) (msg : String) (tb : Option String)
+    (hookOk : Bool) (hfrag : cfg.useGit = true → cfg.autoCommit = true → NoMixed g)
+    (r : String) (c : Nat) (hr : lookupRef g.refs r = some c) :
+    lookupRef (handleGitAutomation (isXvcPathAt root) cfg g msg tb hookOk).g.refs r = some c ∨
+    (lookupRef (handleGitAutomation (isXvcPathAt root) cfg g msg tb hookOk).g.refs r = some g.commits.length ∧
+      g.head = .branch r ∧
+      ∃ o, (handleGitAutomation (isXvcPathAt root) cfg g msg tb hookOk).g.commits = g.commits ++ [o] ∧
+        o.parent = some c ∧
+        (∀ p, isXvcPathAt root p = false → o.tree.find? p = (g.treeOf c).find? p) ∧
+        ∀ fuel, isAncestor (handleGitAutomation (isXvcPathAt root) cfg g msg tb hookOk).g.commits
+          (fuel + 2) c g.commits.length = true) := by
+  have h := handle_facts (isXvcPathAt root) cfg g msg tb hookOk hfrag
+  rcases h.refs_ext r c hr with hk | ⟨h1, h2, o, e, hp⟩
+  · exact Or.inl hk
+  · right
+    refine ⟨h1, h2, o, e, hp, ?_, ?_⟩
+    · intro p hu
+      have hH : g.headTree = g.treeOf c := by simp [G.headTree, G.headCommit, h2, hr]
+      rcases h.commits with e' | ⟨o', e', _, _, ht⟩
+      · rw [e'] at e
+        have := congrArg List.length e
+        simp at this
+      · have : o = o' := by
+          rw [e'] at e
+          have := List.append_cancel_left e
+          simp at this
+          exact this.symm
+        rw [this, ← hH]
+        exact ht p hu
+    · intro fuel
+      rw [e]
+      simp [isAncestor, hp]
+
+/-- **C15, `--to-branch` naming a branch that exists.**  `git checkout -b` refuses: for EVERY ref
+    map in which `b` exists — at HEAD, behind it, ahead of it or diverged, or the current branch —
+    one call leaves all refs, HEAD and the commit list literally as they were (and, with
+    `auto_commit`, returns the git error AFTER the user's staged files were unstashed:
+    `C15_user_paths_untouched` applies as well). -/
+theorem C15_to_branch_existing_refused_refs_kept (root : Path) (cfg : Cfg) (g : G) (msg : String)
+    (b : String) (hookOk : Bool) (hfrag : cfg.useGit = true → cfg.autoCommit = true → NoMixed g)
+    (hb : (lookupRef g.refs b).isSome) :
+    (handleGitAutomation (isXvcPathAt root) cfg g msg (some b) hookOk).g.refs = g.refs ∧
+    (handleGitAutomation (isXvcPathAt root) cfg g msg (some b) hookOk).g.head = g.head ∧
+    (handleGitAutomation (isXvcPathAt root) cfg g msg (some b) hookOk).g.commits = g.commits ∧
+    (cfg.useGit = true → cfg.autoCommit = true →
+      (handleGitAutomation (isXvcPathAt root) cfg g msg (some b) hookOk).status = .gitError) := by
+  have h := handle_facts (isXvcPathAt root) cfg g msg (some b) hookOk hfrag
+  obtain ⟨h1, h2, h3⟩ := h.existing b rfl hb
+  refine ⟨h1, h2, h3, ?_⟩
+  intro hu ha
+  have := (autoCommit_facts (isXvcPathAt root) g msg (some b) hookOk (hfrag hu ha)).2.2.2 b rfl hb
+  simpa [handleGitAutomation, hu, ha] using this
+
+theorem runPhases_to_branch_existing (root : Path) (cfg : Cfg) (msg : String) (b : String) (g : G)
+    (phases : List (Change × Bool))
+    (hinv : cfg.useGit = true → cfg.autoCommit = true → Inv root g)
+    (hc : ∀ ph ∈ phases, Confined root ph.1) (hb : (lookupRef g.refs b).isSome) :
+    (runPhases (isXvcPathAt root) cfg msg (some b) g phases).g.refs = g.refs ∧
+    (runPhases (isXvcPathAt root) cfg msg (some b) g phases).g.head = g.head ∧
+    (runPhases (isXvcPathAt root) cfg msg (some b) g phases).g.commits = g.commits := by
+  induction phases generalizing g with
+  | nil => exact ⟨rfl, rfl, rfl⟩
+  | cons ph rest ih =>
+    obtain ⟨ch, hookOk⟩ := ph
+    have hcc := hc (ch, hookOk) (List.mem_cons_self ..)
+    have hm1 : cfg.useGit = true → cfg.autoCommit = true → NoMixed { g with wt := g.wt.apply ch } :=
+      fun hu ha => noMixed_after_writes root g ch (hinv hu ha) hcc
+    have hb1 : (lookupRef ({ g with wt := g.wt.apply ch } : G).refs b).isSome := hb
+    obtain ⟨h1, h2, h3, h4⟩ :=
+      C15_to_branch_existing_refused_refs_kept root cfg { g with wt := g.wt.apply ch } msg b hookOk hm1 hb1
+    unfold runPhases
+    simp only
+    by_cases hok : (handleGitAutomation (isXvcPathAt root) cfg { g with wt := g.wt.apply ch } msg (some b) hookOk).status = .ok
+    · rw [if_pos hok]
+      have hinv' : cfg.useGit = true → cfg.autoCommit = true →
+          Inv root (handleGitAutomation (isXvcPathAt root) cfg { g with wt := g.wt.apply ch } msg (some b) hookOk).g := by
+        intro hu ha
+        rw [h4 hu ha] at hok
+        cases hok
+      have := ih _ hinv' (fun x hx => hc x (List.mem_cons_of_mem _ hx)) (by rw [h1]; exact hb)
+      exact ⟨by rw [this.1, h1], by rw [this.2.1, h2], by rw [this.2.2, h3]⟩
+    · rw [if_neg hok]
+      exact ⟨h1, h2, h3⟩
+
+/-- **C15, `--to-branch` naming a branch that exists, whole command** (any number of calls, any
+    xvc-side writes, every setting incl. `--skip-git`): refs, HEAD and commits are as they were. -/
+theorem C15_command_to_branch_existing (root : Path) (cfg : Cfg) (skipGit : Bool) (msg : String)
+    (b : String) (g : G) (phases : List (Change × Bool))
+    (hinv : skipGit = false → cfg.useGit = true → cfg.autoCommit = true → Inv root g)
+    (hc : ∀ ph ∈ phases, Confined root ph.1) (hb : (lookupRef g.refs b).isSome) :
+    (xvcCommand (isXvcPathAt root) cfg skipGit msg (some b) g phases).g.refs = g.refs ∧
+    (xvcCommand (isXvcPathAt root) cfg skipGit msg (some b) g phases).g.head = g.head ∧
+    (xvcCommand (isXvcPathAt root) cfg skipGit msg (some b) g phases).g.commits = g.commits := by
+  cases skipGit with
+  | true => simp [xvcCommand]
+  | false =>
+    simp only [xvcCommand, Bool.false_eq_true, if_false]
+    exact runPhases_to_branch_existing root cfg msg b g phases (hinv rfl) hc hb
+
 /-! ## non-vacuity: a concrete, busy user state inside the fragment -/
 
 /-- HEAD tree of the example: four user files, xvc's files -/
@@ -628,6 +760,65 @@ example :
     o.status = .gitError ∧ o.g.commits.length = 1 ∧ o.g.stash = exNested.stash ∧
     o.g.index.find? ["notes.txt"] = some "n1" ∧ o.g.index.find? ["proj", ".xvc", "store", "a.json"] = none := by decide
 
+/-! ## branches with histories of their own; `--to-branch` naming one of them -/
+
+def brBase : Tree := [(["t.txt"], "t1"), ([".gitignore"], "gi0"), ([".xvc", "config.toml"], "c0")]
+
+/-- Commit 0 is the root, 1 the second commit of `main` (parent 0), 2 the user's commit on
+    `results` (parent 0, adds `report.txt`): `results` has DIVERGED from `main`.  `behind` is an
+    ancestor of HEAD, `same` is at HEAD.  The user has staged `user.txt`; xvc has just written
+    `.xvc/store/a.json`. -/
+def exBranches : G :=
+  { commits := [⟨brBase, none, "root"⟩, ⟨(["main2.txt"], "m2") :: brBase, some 0, "second"⟩,
+                ⟨(["report.txt"], "rep1") :: brBase, some 0, "user: report"⟩]
+    refs := [("main", 1), ("results", 2), ("behind", 0), ("same", 1)]
+    head := .branch "main"
+    index := (["user.txt"], "u1") :: (["main2.txt"], "m2") :: brBase
+    wt := ([".xvc", "store", "a.json"], "a1") :: (["user.txt"], "u1") :: (["main2.txt"], "m2") :: brBase
+    stash := [] }
+
+example : NoMixed exBranches := (noMixedB_iff _).mp (by decide)
+example : (lookupRef exBranches.refs "results").isSome = true ∧ isAncestor exBranches.commits 9 2 1 = false ∧
+    isAncestor exBranches.commits 9 1 2 = false ∧ isAncestor exBranches.commits 9 0 1 = true := by decide
+/-- without `--to-branch` the current branch is extended by one commit whose parent is its old tip
+    (second disjunct of `C15_refs_only_extended`), all other refs keep their values -/
+example :
+    let o := handleGitAutomation isXvcPath ⟨true, true, false⟩ exBranches "m" none true
+    o.status = .ok ∧ lookupRef o.g.refs "main" = some 3 ∧ (o.g.commits[3]?).map (·.parent) = some (some 1) ∧
+    lookupRef o.g.refs "results" = some 2 ∧ lookupRef o.g.refs "behind" = some 0 ∧ lookupRef o.g.refs "same" = some 1 ∧
+    isAncestor o.g.commits 9 1 3 = true := by decide
+/-- `--to-branch` with a NEW name: the new branch gets the commit, `main` stays -/
+example :
+    let o := handleGitAutomation isXvcPath ⟨true, true, false⟩ exBranches "m" (some "feat") true
+    o.status = .ok ∧ lookupRef o.g.refs "feat" = some 3 ∧ lookupRef o.g.refs "main" = some 1 ∧
+    lookupRef o.g.refs "results" = some 2 := by decide
+
+/-- **`--to-branch results`, the transcription of the code** (`checkout -b`): refused; refs, HEAD,
+    commits, the staged file and the stash are as they were. -/
+theorem C15_to_branch_existing_witness :
+    let o := handleGitAutomation isXvcPath ⟨true, true, false⟩ exBranches "m" (some "results") true
+    o.status = .gitError ∧ o.g.refs = exBranches.refs ∧ o.g.head = .branch "main" ∧ o.g.commits.length = 3 ∧
+    o.g.index.find? ["user.txt"] = some "u1" ∧ o.g.wt.find? ["user.txt"] = some "u1" ∧ o.g.stash = [] := by decide
+
+/-- **`--to-branch results` with `git checkout -B` (not the code)**: the command "succeeds", `results`
+    is reset to `main`'s tip plus xvc's commit; the user's commit 2 is no ancestor of the new tip, is
+    not reachable from ANY ref any more, and `report.txt` is gone from the branch. -/
+theorem C15_to_branch_force_counterexample :
+    let o := gitAutoCommitForceBranch isXvcPath exBranches "m" "results" true
+    o.status = .ok ∧ o.g.head = .branch "results" ∧ lookupRef o.g.refs "results" = some 3 ∧
+    isAncestor o.g.commits 9 2 3 = false ∧ isAncestor o.g.commits 9 1 3 = true ∧
+    o.g.refs.all (fun r => !isAncestor o.g.commits 9 2 r.2) = true ∧
+    (exBranches.treeOf 2).find? ["report.txt"] = some "rep1" ∧ o.g.headTree.find? ["report.txt"] = none := by decide
+
+/-- the `-B` variant is unobservable when the target is new, at HEAD or behind HEAD (the old tip
+    stays an ancestor of the new one): why the defect needs a target with commits of its own -/
+example :
+    isAncestor (gitAutoCommitForceBranch isXvcPath exBranches "m" "same" true).g.commits 9 1 3 = true ∧
+    lookupRef (gitAutoCommitForceBranch isXvcPath exBranches "m" "same" true).g.refs "same" = some 3 ∧
+    isAncestor (gitAutoCommitForceBranch isXvcPath exBranches "m" "behind" true).g.commits 9 0 3 = true ∧
+    lookupRef (gitAutoCommitForceBranch isXvcPath exBranches "m" "behind" true).g.refs "behind" = some 3 ∧
+    lookupRef (gitAutoCommitForceBranch isXvcPath exBranches "m" "feat" true).g.refs "results" = some 2 := by decide
+
 /-! ## the code before the patches: concrete counterexamples (replayed on the real binary by
     `lib/c15.py`, corpus cases 0–4 and 6–8) -/
 
@@ -696,6 +887,16 @@ open Git in
 #print axioms C15_no_git
 open Git in
 #print axioms C15_auto_stage
+open Git in
+#print axioms C15_refs_only_extended
+open Git in
+#print axioms C15_to_branch_existing_refused_refs_kept
+open Git in
+#print axioms C15_command_to_branch_existing
+open Git in
+#print axioms C15_to_branch_existing_witness
+open Git in
+#print axioms C15_to_branch_force_counterexample
 open Git in
 #print axioms C15_nested_staged_outside_witness
 open Git in
